@@ -64,11 +64,50 @@ def theorem_at(prop_path, out):
     return None
 
 
-def build(chk):
+NAMING_ORACLE = ("import json, sys\nimport lsprotocol.types as t\nms = json.load(sys.stdin)\n"
+                 "print(json.dumps({m: t.METHOD_TO_TYPES[m][0].__name__ for m in ms if m in t.METHOD_TO_TYPES}))\n")
+
+
+def named_model(chk=None):
+    """(path of the model the vectors are judged against, its document, naming table or None).
+    C17 speaks of <MessageClass>; for a request / notification WITHOUT typeName the metamodel does not say what that class is called.
+    Pinned reading: it is the class the generated Python package of the same tree registers for the method (METHOD_TO_TYPES — the
+    catalogue C09 ties to the metamodel — is the naming oracle; no camel-casing function is re-implemented here, as for .NET in
+    Dotnet.v and for Rust in Rust.v).  The vectors are then judged against the NAMED TWIN of the model: the same document with
+    typeName := that class name for exactly the entries that lack one (typeName is read by Strict.msg_classes only, so payload
+    validity is untouched).  A method the catalogue does not know stays unnamed and is reported as before."""
+    import subprocess
+    src = os.path.join(V.REPO, "generator", "lsp.json")
+    doc = json.load(open(src))
+    un = [e["method"] for e in doc["requests"] + doc["notifications"] if not e.get("typeName")]
+    if not un:
+        return src, doc, None
+    p = subprocess.run([V.PY, "-B", "-c", NAMING_ORACLE], input=json.dumps(un), capture_output=True, text=True, timeout=600, env=V.repo_env())
+    table = {}
+    if p.returncode == 0:
+        try:
+            table = json.loads(p.stdout.strip().split("\n")[-1])
+        except Exception:
+            table = {}
+    if chk:
+        chk.obligation("naming-oracle:python-catalogue", p.returncode == 0 and all(m in table for m in un),
+                       "%d entries without typeName, %d named by METHOD_TO_TYPES; %s" % (len(un), len(table), (p.stderr or "")[-200:]))
+        chk.extra["classes_named_by_python_catalogue"] = table
+    for e in doc["requests"] + doc["notifications"]:
+        if not e.get("typeName") and e["method"] in table:
+            e["typeName"] = table[e["method"]]
+    os.makedirs(V.GEN, exist_ok=True)
+    twin = os.path.join(V.GEN, "C17NamedModel.json")
+    with open(twin, "w") as f:
+        json.dump(doc, f)
+    return twin, doc, table
+
+
+def build(chk, model_path=None):
     """x_mm + MMData.v + props/C17.v. Returns (mmdata_ok, failed list)."""
     failed = []
     mm_v = os.path.join(V.GEN, "MMData.v")
-    p = V.run_py("x_mm.py", [os.path.join(V.REPO, "generator", "lsp.json"), mm_v])
+    p = V.run_py("x_mm.py", [model_path or os.path.join(V.REPO, "generator", "lsp.json"), mm_v])
     if chk:
         chk.obligation("translate:x_mm", p.returncode == 0, (p.stdout + p.stderr)[-300:])
     if p.returncode != 0:
@@ -184,17 +223,28 @@ def run(chk):
     chk.rule = RULE
     timings = {}
     failed = []
+    model_path, model_doc, naming = named_model(chk)
     with V.build_lock():
         t0 = time.time()
-        mm_ok, failed = build(chk)
+        mm_ok, failed = build(chk, model_path)
         timings["build_s"] = round(time.time() - t0, 1)
+    try:
+        run_judged(chk, t_start, timings, mm_ok, failed, model_doc, model_path if naming is not None else None)
+    finally:
+        if naming is not None:
+            # Gen/MMData.v is shared by the checks of this tree: put the translation of the model file itself back
+            with V.build_lock():
+                V.run_py("x_mm.py", [os.path.join(V.REPO, "generator", "lsp.json"), os.path.join(V.GEN, "MMData.v")])
+
+
+def run_judged(chk, t_start, timings, mm_ok, failed, model_doc, twin_path):
     if not mm_ok:
         chk.violation({"property": "C17", "kind": "obligation no longer checks", "broken": [{"what": a, "name": b, "detail": c} for a, b, c in failed]},
                       no_input=True)
         return
 
     from mmlib import MMView
-    ref = X.Ref(MMView())
+    ref = X.Ref(MMView(doc=model_doc))
     reported = [0]
     suppressed = collections.Counter()
     opens, _fixed = V.known_findings("C17")
@@ -258,7 +308,7 @@ def run(chk):
         t0 = time.time()
         tasks = []
         for k, ch in enumerate(X.chunks(sel, SHARD)):
-            tasks.append(("CasesC17_%d" % k, k * SHARD, vdir, [entries[i] for i in ch], False))
+            tasks.append(("CasesC17_%d" % k, k * SHARD, vdir, [entries[i] for i in ch], False) + ((("MMData", twin_path),) if twin_path else ()))
         results = X.run_parallel(X.eval_shard, tasks)
         timings["coq_eval_s"] = round(time.time() - t0, 1)
         code = {}
@@ -479,8 +529,10 @@ def replay(path):
     if "file" not in r and "class" not in r:
         print("no concrete input recorded:", json.dumps(r)[:2000])
         return 1
+    model_path, _doc, naming = named_model(None)
+    twin = (("MMData", model_path),) if naming is not None else ()
     with V.build_lock():
-        mm_ok, failed = build(None)
+        mm_ok, failed = build(None, model_path)
     if not mm_ok:
         print("cannot rebuild the metamodel data:", failed)
         return 1
@@ -496,7 +548,7 @@ def replay(path):
             if not entries:
                 print("class %s still has no True-labelled vector" % cls)
                 return 1
-            res = X.eval_shard(("CasesC17_replay", 0, vdir, entries[:SHARD], False))
+            res = X.eval_shard(("CasesC17_replay", 0, vdir, entries[:SHARD], False) + twin)
             good = [e[0] for k, e in enumerate(entries[:SHARD]) if res["codes"].get(k, 0) == 0]
             print("class %s: %d True-labelled vectors, verified valid: %d" % (cls, len(entries), len(good)))
             return 0 if good else 1
@@ -508,7 +560,7 @@ def replay(path):
         if pn is None:
             print("still emitted with a malformed name:", fn)
             return 1
-        res = X.eval_shard(("CasesC17_replay", 0, vdir, [(fn, pn[0], pn[1])], False))
+        res = X.eval_shard(("CasesC17_replay", 0, vdir, [(fn, pn[0], pn[1])], False) + twin)
         c = res["codes"].get(0, 0)
         print("file", fn)
         print("label", pn[1], "| verified checker:", CODE_TEXT[c], "| reference:", res["ref"][0] or "valid")
